@@ -101,6 +101,8 @@ def check_C02(replay=None):
         return out
     traces = parallel(gen, jobs, 8)
     _c02_validate(chk, traces)
+    # GETC from a real terminal, the stack words under every spelling of -f, input read while commands arrive on the same stdin
+    _env_events(chk, {"tty", "featrun", "xport"})
     chk.distinct = max(chk.distinct, 2)
     chk.samples = vlib.sample_lines(traces[0], 2)
     chk.extra["exhaustive"] = False
@@ -422,7 +424,8 @@ def check_C03(replay=None):
                        "counted loops, JSR/RET and CALL/RETS subroutines, self-modifying stores, fall-off, jumps to 0xFFFF / below origin / >= 0xFE00, traps with input incl. non-ASCII and premature EOF; "
                        "arbitrary word images <= 5 words at boundary origins under a step budget) run by the real RunEnvironment; Trace_Debug.tla (Machine spec) must explain the load state, "
                        "every executed instruction (fetch address inside [origin, 0xFE00), word, full state diff, output, input) and the way the run stopped. distinct = sessions",
-                       DBG_ASSUME, jobs, replay, mc=lambda th: [("MC_Machine", "MC_Machine_deep.cfg" if th else "MC_Machine.cfg")])
+                       DBG_ASSUME, jobs, replay, mc=lambda th: [("MC_Machine", "MC_Machine_deep.cfg" if th else "MC_Machine.cfg")],
+                       extra_fn=lambda chk, th: _env_events(chk, {"tty", "fifo"}))
 
 
 def _mc_dbg(kind):
@@ -490,7 +493,17 @@ def _c09_cli_pairs(chk, thorough):
             evs.append({"ev": "dbgpair", "tag": c["tag"], "run": [a[0], norm(a[1])], "dbg": [b[0], norm(b[1])], "script": script, "src": c["src"]})
         return evs
     events = [e for evs in parallel(pair, list(enumerate(man)), 8) for e in evs]
+    # more than 2^16 instructions between two prompts; an inspection command with hundreds of surplus arguments
+    long_src = "ld r1 outer\no and r2 r2 #0\ni add r2 r2 #-1\nbrnp i\nadd r1 r1 #-1\nbrp o\nlea r0 done\nputs\nhalt\nouter .fill #300\ndone .stringz \"done\"\n"
+    lp = os.path.join(d, "longloop.asm")
+    open(lp, "w").write(long_src)
+    a = vlib.run_lace(["run", "--minimal", lp], timeout=120)
+    norm = lambda o: _norm_out(o, [lp]).replace("\n", "")
+    for script in ["c;q", "step;c;q", "continue", "step into 3;step out;c;q", "print r0" + " w" * 300 + ";c;q", "r" + " 1" * 256 + ";q"]:
+        b = vlib.run_lace(["debug", "--minimal", lp, "--command", script], timeout=120)
+        events.append({"ev": "dbgpair", "tag": "longloop", "run": [a[0], norm(a[1])], "dbg": [b[0], norm(b[1])], "script": script[:80], "src": long_src})
     _cli_validate(chk, events, "dbgpair")
+    _env_events(chk, {"xport"}, n=9)
     _shutil.rmtree(d, ignore_errors=True)
 
 
@@ -504,7 +517,8 @@ def check_C09(replay=None):
 def check_C10(replay=None):
     return _run_family("C10", DBG_RULE % "stepping commands: random scripts over step / step into k / step out / continue / break add/remove, plus ALL scripts up to a bounded length over that alphabet on the catalogue",
                        DBG_ASSUME, _dbg_jobs("step", enum_len=2, extra=[("scn", ["--mode", "scenario"])]), replay, mc=_mc_dbg("mut"),
-                       replay_b=lambda th: ("Gen_Debugger_deep.cfg" if th else "Gen_Debugger.cfg", 4 if th else 1))
+                       replay_b=lambda th: ("Gen_Debugger_deep.cfg" if th else "Gen_Debugger.cfg", 4 if th else 1),
+                       extra_fn=lambda chk, th: _env_events(chk, {"xport"}, n=9))
 
 
 def check_C11(replay=None):
@@ -577,6 +591,72 @@ def _transport_events(chk, n, seed):
                      if (x.startswith("[") and x.endswith("]")) or x.startswith("PC x")]
             events.append({"ev": "transport", "arg": vlib.chars(arg), "stdin": vlib.chars(stdin), "lines": lines, "code": code,
                            "script": script, "cut": cut})
+    return events
+
+
+# --------------------------------------------------------------------------------------------
+# Observations of the real binary in environments the in-process hooks bypass (shared by several checks)
+# --------------------------------------------------------------------------------------------
+
+def _env_events(chk, kinds, n=6):
+    """kinds: subset of {"tty", "fifo", "featrun", "xport"}; returns Trace_Cli events.
+    tty     : GETC fed from a REAL terminal (term.rs read_byte), multi-byte characters typed between ASCII ones
+    fifo    : an object file delivered through a named pipe (its size is not known beforehand)
+    featrun : a program that executes PUSH/POP words, run under every spelling of -f
+    xport   : a script that resumes a program which reads input, through --command and through stdin"""
+    import random
+    import threading
+    vlib.build(need_cli=True)
+    rnd = random.Random(chk.seed * 97 + 3)
+    d = _wpath("%s_env" % chk.pid.lower())
+    _shutil.rmtree(d, ignore_errors=True)
+    os.makedirs(d)
+    events = []
+    if "tty" in kinds:
+        import ptydrive
+        for k in range(max(2, n // 2)):
+            typed = []
+            for _ in range(rnd.randint(2, 5)):
+                typed.append(rnd.choice(["a", "b", "Z", "0", "\u00e9", "\u2713", "\U0001F600", "q"]))
+            nbytes = sum(len(t.encode()) for t in typed)
+            src = "ld r1 n\nloop getc\nputn\nld r0 nl\nout\nadd r1 r1 #-1\nbrp loop\nhalt\nn .fill #%d\nnl .fill x0a\n" % nbytes
+            path = os.path.join(d, "tty%d.asm" % k)
+            open(path, "w").write(src)
+            st, text = ptydrive.tty_input_session(vlib.LACE_BIN, ["run", "--minimal", path], [t.encode() for t in typed])
+            body = text.split("Running", 1)[-1]
+            got = [int(x) % 65536 for x in _re.findall(r"(?m)^(-?\d+)\r?$", body)]
+            events.append({"ev": "ttyin", "tag": "tty%d" % k, "typed": [b for t in typed for b in t.encode()], "got": got, "code": -1 if st is None else st, "src": src})
+    if "fifo" in kinds:
+        for k, (o, nwords) in enumerate([(0x3000, 1), (0x3000, 5000), (0x0000, 3), (0xFDFF, 1)]):
+            data = bytes([o >> 8, o & 0xFF]) + bytes([0xF0, 0x25]) * nwords
+            reg = os.path.join(d, "reg%d.lc3" % k)
+            open(reg, "wb").write(data)
+            a = vlib.run_lace(["run", "--minimal", reg])
+            ff = os.path.join(d, "fifo%d.lc3" % k)
+            os.mkfifo(ff)
+
+            def feed(path=ff, data=data):
+                try:
+                    with open(path, "wb") as f:
+                        f.write(data)
+                except OSError:
+                    pass
+            t = threading.Thread(target=feed, daemon=True)
+            t.start()
+            b = vlib.run_lace(["run", "--minimal", ff], timeout=60)
+            t.join(5)
+            events.append({"ev": "fifoload", "tag": "fifo%d" % k, "file": [a[0], _norm_out(a[1], [reg])], "fifo": [b[0], _norm_out(b[1], [ff])]})
+    if "featrun" in kinds:
+        src = os.path.join(d, "feat.asm")
+        # PUSH R1 / POP R2 as raw words: needs no lexer support, only the run-time gate
+        open(src, "w").write("and r1 r1 #0\nadd r1 r1 #7\n.fill xD440\n.fill xD080\nhalt\n")
+        for v in ["stack", "stack,", ",stack", ",,stack,,", "", ","]:
+            code, out, err = vlib.run_lace(["run", "--minimal", "-f", v, src])
+            events.append({"ev": "featrun", "tag": "-f " + v, "value": vlib.chars(v), "code": code})
+    if "xport" in kinds:
+        events += _xport_events(chk, n, chk.seed + 11)
+    _cli_validate(chk, events, "env")
+    _shutil.rmtree(d, ignore_errors=True)
     return events
 
 
@@ -828,6 +908,8 @@ def check_C06(replay=None):
         return {"ev": "loadfile", "tag": "len%d" % nbytes, "len": nbytes, "o": o if o is not None else 0, "code": code,
                 "refused": any(m in e for m in LOADER_MSGS)}
     events += parallel(loadf, specs, 8)
+    # (3b) the same bytes through a named pipe
+    _env_events(chk, {"fifo"})
     # (4) sub-command / extension dispatch (spec growth beyond the listed property)
     dd = _wpath("c06_dispatch")
     _shutil.rmtree(dd, ignore_errors=True)
